@@ -15,13 +15,30 @@ Two further ways an occurrence reaches the guards:
 * delayed delivery - @state_trigger(..., state_hold=N) on the "any change" form: the change is handed to the
   guards by the hold timer N seconds later, with further changes of the variable during the period.
 
-A third: a change of the local wall clock during the run.  A quarter of the runs starts 1-5 minutes before the
+A third: a change of the local wall clock during the run.  22% of the runs start 1-5 minutes before the
 start or the end of daylight saving time of its time zone (the naive local time pyscript works with jumps an hour
 forward or back; elapsed time does not).  Window edges then lie on whole minutes before the change, after it, in
 the skipped hour or further away; the time triggers are crontab lines (cron(m h * * *), the time trigger that is
 documented to follow the local wall clock; also used in 15% of the ordinary runs) with instants on those minutes,
 one of them usually the first one after the change; hold_off values of 20 and 75 s and occurrences of one function
 a few seconds before and after the change, so that a hold-off period contains the change.
+
+Further situations (every run draws them independently):
+* dependencies of @state_active that are no state variable named in the expression: a global variable of the script
+  ("flag0 and ..."), a function of the script ("flag1_is_set()"), an entity read through state.get('pyscript.g0').
+  The globals are changed by a service of the script between occurrences (op "flag"), so that consecutive occurrences
+  see the same entity values but another value of the expression;
+* the trigger variable of a state trigger carries an attribute ("level") that changes with the value; expressions
+  use pyscript.tN.level / pyscript.tN.old.level (the attribute of the triggering value and of its .old);
+* a state-triggered function that also has an @event_trigger (its event occurrences see the trigger variable's
+  current value and no .old);
+* sunrise / sunset window end points (plain day / night, or moved by an offset onto whole seconds inside the run;
+  only in the time zone of the simulated location): pyscript looks them up in an executor job, so the guard
+  evaluation suspends; such runs have an executor latency of up to 0.5 / 5 / 20 ms;
+* bursts: 2-4 occurrences of one function in the same instant (the driver does not yield between the stimuli):
+  changes of the trigger variable, events of the event trigger(s), or both in turn.  One run in eight ("focus") is
+  laid out for the interleaving: function f0 has two different triggers, hold_off, a sunrise/sunset window, executor
+  latency > 0 and at least two such bursts.
 
 Four constructs are generated in half of the runs only (spec["steer"] false), because the unchanged code deviates
 on them (each has its own violation class, see the end of this text):
@@ -41,6 +58,15 @@ variable value"); changes during the period are no occurrences.  The occurrence 
 windows is the local wall-clock time of the occurrence (for a time trigger: the local time it denotes); hold_off
 counts elapsed seconds between occurrences, whatever the wall clock was set to in between; occurrences are
 ordered by elapsed time.
+
+Same-instant occurrences and hold_off: which of them is "the first" is not defined, so of those that pass the other
+guards exactly one must run (none if an earlier hold-off period is still running), whichever it is.  The triggering
+values of each member of a burst are its own (value, .old and attributes of that change).
+
+Violation classes of these situations (signature: subsystem only): C07.hold_off_same_instant_occurrences (more than
+one of the same-instant occurrences ran; "triggers": same / different trigger decorators),
+C07.state_active_attribute_not_of_triggering_value (the verdict is the one the attribute of a later change gives),
+C07.state_active_builtin_function_not_callable (the verdict is the one a raising state.get() gives).
 
 Violation classes for the constructs above: C07.state_active_falsy_value (ran although the expression is 0),
 C07.hold_off_started_by_rejected_occurrence (an occurrence that passes every guard did not run within N seconds
@@ -66,18 +92,37 @@ RULE = (
     "seeded generation of 1-3 guarded functions (event/state/time trigger, 30% of the event/state ones combined "
     "with a @time_trigger, 40% of the state ones with state_hold; 0-4 positive/negated range()/cron() "
     "windows; hold_off; @state_active) and <=40 timed occurrences over ~8 simulated minutes incl. time-trigger "
-    "instants (once(), 15% cron()) exactly on window end points; 25% of the runs cross a daylight-saving change of "
-    "their time zone (forward 2:1 back) 1-5 minutes after the start, with window edges around/inside the skipped "
+    "instants (once(), 15% cron()) exactly on window end points; 22% of the runs (a quarter of those that are no "
+    "'focus' runs, see below) cross a daylight-saving change of their time zone (forward 2:1 back) 1-5 minutes "
+    "after the start, with window edges around/inside the skipped "
     "hour, cron() time triggers before and after the change, hold_off 20/75 s and occurrences of one function "
     "seconds before and after the change; in half of the runs (steer coin) also: number-valued @state_active "
     "expressions, @time_active above @state_active, two @event_trigger decorators on one function, a 'shutdown' "
-    "time trigger with a reload at the end; distinct = scenario digest; non-trivial = at least one accepted and one "
-    "rejected occurrence"
+    "time trigger with a reload at the end; further, drawn independently: 30% of the functions have a @state_active "
+    "term that names no state variable (script global / script function / state.get(), the globals toggled by a "
+    "service between occurrences), 50% of the state triggers carry an attribute used as pyscript.tN.level / "
+    ".old.level, 25% of the state-triggered functions also have an @event_trigger, 22% of the windows in US/Pacific "
+    "runs have sunrise/sunset end points (then executor latency <= 0.5/5/20 ms in 75%), 40% of the runs contain 1-3 "
+    "bursts of 2-4 same-instant occurrences of one function (functions with an attribute drawn 3x as often); 12.5% 'focus' runs: f0 with two different triggers + "
+    "hold_off + sunrise/sunset window + executor latency + >= 2 bursts in which its triggers take turns; "
+    "distinct = scenario digest; non-trivial = at least one accepted and one rejected occurrence"
 )
 ASSUMPTIONS = [
     "event/state occurrences are kept >= 0.3 s away from window edges and hold_off boundaries; time-trigger "
     "occurrences are evaluated at their exact trigger time (documented: trigger_time is the exact datetime)",
-    "weekday windows start and end on the same weekday; sunrise/sunset windows are not generated here",
+    "weekday windows start and end on the same weekday (what range(fri 22:00, 2:00) or range(sat, sun) denote is not "
+    "documented); offsets never move a window end point to another day (range(22:00 + 3h, 6:00) is not documented)",
+    "sunrise/sunset are those of the astral library for the location of the simulated Home Assistant (environment), "
+    "truncated to the second; they are generated in that location's time zone only",
+    "same-instant occurrences of one function (no loop pass between the stimuli) with hold_off: the order among them "
+    "is not defined - exactly one of those that pass the other guards runs; if one of them is don't-care or a "
+    "rejected one ran, no hold_off verdict is given for that group",
+    "an event or time occurrence of a state-triggered function reads the trigger variable's current value: don't-care "
+    "if the variable changes within 0.3 s of it and the expression uses it",
+    "script globals change (service call) >= 0.4 s away from any occurrence; state.get('pyscript.gN') reads the "
+    "current value of an existing entity",
+    "attributes belong to the triggering value: pyscript.tN.level is the attribute the variable had in the change that "
+    "is the occurrence (with state_hold: the change that started the period), pyscript.tN.old.level the one before",
     "on a day with a wall-clock change: now-relative windows are not generated (whether 'now + 5 min' means elapsed "
     "or wall-clock time is not documented); time triggers are cron(m h * * *) lines for wall-clock minutes that "
     "exist exactly once during the run (none after the change on a day with a repeated hour); event/state "
@@ -111,7 +156,11 @@ REACH_PROBES = ["occurrence_on_window_end", "hold_off_rejected", "negated_window
                 "hold_off_over_across_clock_change", "window_edge_in_skipped_hour",
                 "state_active_falsy_non_bool", "state_active_rejected_below_hold_off",
                 "hold_off_other_trigger_of_same_type", "shutdown_occurrence",
-                "state_hold_across_clock_change"]
+                "state_hold_across_clock_change",
+                "state_active_non_entity_dependency", "only_non_entity_dependency_changed",
+                "sun_window", "state_and_event_trigger", "burst_occurrence", "burst_of_two_triggers",
+                "burst_of_two_triggers_with_hold_off", "burst_of_two_triggers_hold_off_suspending_guard",
+                "hold_off_decides_within_burst", "trigger_attribute_changed_again_before_evaluation"]
 SHRINK_LISTS = [["ops"], ["spec", "funcs"], ["spec", "funcs", "*", "windows"]]
 
 
@@ -123,6 +172,12 @@ def a_src(node: list) -> str:
     kind = node[0]
     if kind == "intval":
         return f"int({X.ref_src(node[1])})"
+    if kind == "glob":
+        return node[1]
+    if kind == "call":
+        return f"{node[1]}_is_set()"
+    if kind == "sget":
+        return f"state.get({node[1]!r}) {node[2]} {node[3]!r}"
     if kind in ("and", "or"):
         return f"({a_src(node[1])} {kind} {a_src(node[2])})"
     if kind == "not":
@@ -136,6 +191,8 @@ def a_refs(node: list, out: list | None = None) -> list:
     kind = node[0]
     if kind == "intval":
         out.append(node[1])
+    elif kind in ("glob", "call", "sget"):
+        pass  # no state variable is named
     elif kind in ("and", "or"):
         a_refs(node[1], out)
         a_refs(node[2], out)
@@ -155,6 +212,13 @@ def a_eval(node: list, env):
             return int(None if val is None else val[0])
         except (TypeError, ValueError) as exc:
             raise X.EvalError(type(exc).__name__) from exc
+    if kind in ("glob", "call"):
+        return env("glob", node[1])
+    if kind == "sget":
+        val = env("sget", node[1])
+        if val is None:
+            raise X.EvalError("NameError")
+        return X._REL[node[2]](val[0], node[3])  # pylint: disable=protected-access
     if kind == "and":
         left = a_eval(node[1], env)
         return a_eval(node[2], env) if left else left
@@ -166,12 +230,104 @@ def a_eval(node: list, env):
     return X.evaluate(node, env)
 
 
+def a_deps(node: list | None, out: list | None = None) -> list:
+    """What the expression depends on besides the state variables it names: [kind, name] of script globals
+    ("glob"), script functions ("call") and entities read through state.get() ("sget")."""
+    if out is None:
+        out = []
+    if node is None:
+        return out
+    kind = node[0]
+    if kind in ("glob", "call", "sget"):
+        out.append([kind, node[1]])
+    elif kind in ("and", "or"):
+        a_deps(node[1], out)
+        a_deps(node[2], out)
+    elif kind == "not":
+        a_deps(node[1], out)
+    return out
+
+
+FLAGS = ["flag0", "flag1"]
+
+
+def sun_local(tzname: str):
+    """sunrise/sunset of a day as naive local time: astral at the location of the simulated Home Assistant (the
+    harness location of pytest_homeassistant_custom_component; environment, as in C06)."""
+    import zoneinfo
+
+    from astral import LocationInfo
+    from astral.location import Location
+
+    loc = Location(LocationInfo("sim", "sim", tzname, 32.87336, -117.22743))
+    tz = zoneinfo.ZoneInfo(tzname)
+
+    def sun(kind, day):
+        try:
+            val = loc.sunrise(day) if kind == "sunrise" else loc.sunset(day)
+        except Exception:  # pylint: disable=broad-except
+            return None
+        return val.astimezone(tz).replace(tzinfo=None)
+
+    return sun
+
+
+def _edge_at(end: dict, day: dt.date, sun) -> dt.datetime | None:
+    """The naive local time a dateless / dated / weekday window end point denotes on ``day`` (None: now-relative, or
+    no sunrise/sunset that day)."""
+    if end["date"]["k"] == "now":
+        return None
+    t = C._time_on_day(end["time"], day, sun)  # pylint: disable=protected-access
+    return None if t is None else t + dt.timedelta(seconds=end.get("off", 0))
+
+
 def _hms(t: dt.datetime) -> dict:
     return {"k": "hms", "h": t.hour, "m": t.minute, "s": t.second}
 
 
-def _gen_window(rng: random.Random, base: dt.datetime) -> dict:
+def _gen_window_sun(rng: random.Random, base: dt.datetime, sun) -> dict | None:
+    """A window with sunrise / sunset end points (looking them up makes the guard suspend: pyscript asks the
+    executor): the plain day or night, or end points moved by an offset onto whole seconds within the run."""
+    day = base.date()
+    ref = {kind: sun(kind, day) for kind in ("sunrise", "sunset")}
+    if ref["sunrise"] is None or ref["sunset"] is None:
+        return None
+    a = base + dt.timedelta(seconds=rng.choice([30, 60, 90, 120, 150, 200]))
+    b = a + dt.timedelta(seconds=rng.choice([20, 45, 60, 120, 180]))
+    if b.date() != day:
+        return None
+    none = {"k": "none"}
+
+    def sun_edge(target):
+        kind = rng.choice(["sunrise", "sunset"])
+        return {"date": none, "time": {"k": kind}, "off": int((target - ref[kind].replace(microsecond=0)).total_seconds())}
+
+    form = rng.random()
+    if form < 0.3:
+        start = {"date": none, "time": {"k": "sunrise"}, "off": rng.choice([0, 0, 900, -1200])}
+        end = {"date": none, "time": {"k": "sunset"}, "off": rng.choice([0, 0, 900, -1200])}
+        if rng.random() < 0.5:
+            start, end = end, start  # the night: wraps midnight
+    elif form < 0.7:
+        start, end = sun_edge(a), sun_edge(b)
+    elif form < 0.85:
+        start, end = sun_edge(a), {"date": none, "time": _hms(b), "off": 0}
+    else:
+        start, end = {"date": none, "time": _hms(a), "off": 0}, sun_edge(b)
+    return {"type": "range", "start": start, "end": end, "neg": rng.random() < 0.35}
+
+
+def _has_sun(windows: list) -> bool:
+    return any(win["type"] == "range" and win[key]["time"].get("k") in ("sunrise", "sunset")
+               for win in windows for key in ("start", "end"))
+
+
+def _gen_window(rng: random.Random, base: dt.datetime, sun=None) -> dict:
     """A window whose edges are whole seconds within the ~8 simulated minutes after ``base``."""
+    if sun is not None and rng.random() < 0.22:
+        spec = _gen_window_sun(rng, base, sun)
+        if spec is not None:
+            return spec
     a = base + dt.timedelta(seconds=rng.choice([30, 60, 90, 120, 150, 200]))
     b = a + dt.timedelta(seconds=rng.choice([20, 45, 60, 120, 180]))
     neg = rng.random() < 0.35
@@ -292,7 +448,8 @@ def _gen_window_change(rng: random.Random, base: dt.datetime, zone: C.Zone, dst:
     return spec
 
 
-def _gen_instants_minutes(rng: random.Random, windows: list, base: dt.datetime, zone: C.Zone, dst: dict | None) -> list:
+def _gen_instants_minutes(rng: random.Random, windows: list, base: dt.datetime, zone: C.Zone, dst: dict | None,
+                          sun=None) -> list:
     """Time-trigger instants for the crontab form: whole wall-clock minutes of the run - those on window end
     points and one minute either side, plus a few others.  On a day with a repeated hour only minutes before the
     change are used (which of the two passes through a repeated minute crontab means is not this property's)."""
@@ -305,8 +462,10 @@ def _gen_instants_minutes(rng: random.Random, windows: list, base: dt.datetime, 
     for win in windows:
         if win["type"] == "range" and win["start"]["date"]["k"] in ("none", "full", "dow"):
             for key in ("start", "end"):
-                tm = win[key]["time"]
-                e = dt.datetime(base.year, base.month, base.day, tm["h"], tm["m"], 0)
+                e = _edge_at(win[key], base.date(), sun)
+                if e is None:
+                    continue
+                e = e.replace(second=0, microsecond=0)
                 for d in (-1, 0, 1):
                     t = e + dt.timedelta(minutes=d)
                     if t in usable and rng.random() < 0.7:
@@ -326,14 +485,15 @@ def _gen_instants_minutes(rng: random.Random, windows: list, base: dt.datetime, 
 STATE_HOLDS = [1.2, 2.2, 4.2]
 
 
-def _gen_instants(rng: random.Random, windows: list, base: dt.datetime) -> list:
+def _gen_instants(rng: random.Random, windows: list, base: dt.datetime, sun=None) -> list:
     """Time-trigger instants exactly on window end points and one second either side, plus a few others."""
     edges = []
     for win in windows:
         if win["type"] == "range" and win["start"]["date"]["k"] in ("none", "full", "dow"):
             for key in ("start", "end"):
-                tm = win[key]["time"]
-                edges.append(dt.datetime(base.year, base.month, base.day, tm["h"], tm["m"], tm["s"]))
+                edge = _edge_at(win[key], base.date(), sun)
+                if edge is not None:
+                    edges.append(edge.replace(microsecond=0))
     insts = set()
     for e in edges:
         for d in (-1, 0, 1):
@@ -356,7 +516,12 @@ def gen(rng: random.Random, tier: str) -> dict:
     cfg["drift"] = 0.0
     cfg["exec_latency_ms"] = [0.0, 0.0]
     dst = None
-    if rng.random() < 0.25:
+    # one run in eight is about interleaving: a function with two different triggers, hold_off and a guard that
+    # suspends (sunrise / sunset window, executor latency > 0), and same-instant occurrences of both triggers
+    focus = rng.random() < 0.125
+    if focus:
+        cfg["tz"] = "US/Pacific"
+    elif rng.random() < 0.25:
         # the run is laid across a change of the local wall clock (start / end of daylight saving time)
         cfg["tz"] = rng.choice(sorted(CLOCK_CHANGES))
         dst = {"dir": rng.choice(["forward", "forward", "back"])}
@@ -371,6 +536,8 @@ def gen(rng: random.Random, tier: str) -> dict:
     # half of the runs stay clear of three constructs on which the unchanged code is known to deviate (see the
     # C07.state_active_falsy_value / hold_off_started_by_rejected_occurrence / hold_off_not_shared classes)
     steer = rng.random() < 0.5
+    # sunrise / sunset belong to the location of the simulated Home Assistant (San Diego): only in its own time zone
+    sun = sun_local(cfg["tz"]) if cfg["tz"] == "US/Pacific" and not dst else None
     funcs = []
     for fi in range(rng.choice([1, 2, 2, 3])):
         trig = rng.choice(["event", "event", "state", "time"])
@@ -378,11 +545,20 @@ def gen(rng: random.Random, tier: str) -> dict:
         if dst:
             windows = [_gen_window_change(rng, base, zone, dst) for _ in range(n_win)]
         else:
-            windows = [_gen_window(rng, base) for _ in range(n_win)]
+            windows = [_gen_window(rng, base, sun) for _ in range(n_win)]
+        if focus and fi == 0:
+            trig = rng.choice(["state", "state", "event"])
+            first = _gen_window_sun(rng, base, sun)
+            if first is not None:
+                first["neg"] = rng.random() < 0.15
+                windows = [first] + windows[:rng.choice([0, 0, 1, 2])]
         func = {"name": f"f{fi}", "trig": trig, "windows": windows,
                 "hold_off": rng.choice([None, None, None, 1.2, 3.3, 0, 20.2]) if trig != "time" else None,
                 "active": None, "time_active": bool(windows) or rng.random() < 0.3,
                 "also_time": False, "state_hold": None, "tt_form": "once"}
+        if focus and fi == 0:
+            func["hold_off"] = rng.choice([1.2, 3.3, 20.2])
+            func["time_active"] = True
         if dst and trig != "time" and rng.random() < 0.6:
             # longer hold-offs: one that was started before the wall clock changed is still running after it
             func["hold_off"] = rng.choice([3.3, 20.2, 20.2, 75.2])
@@ -396,10 +572,20 @@ def gen(rng: random.Random, tier: str) -> dict:
             # (a state_hold period that contains a change of the wall clock: in half of the runs only, see
             # C07.state_hold_across_clock_change)
             func["state_hold"] = rng.choice(STATE_HOLDS)
-        if rng.random() < (0.65 if func["state_hold"] else 0.4):
+        if trig == "state" and (rng.random() < 0.25 or (focus and fi == 0)):
+            func["also_event"] = True  # the state-triggered function also has an @event_trigger
+        if trig == "state" and rng.random() < 0.5:
+            func["attrs"] = True  # the trigger variable carries an attribute ("level") that changes with it
+        if rng.random() < (0.65 if func["state_hold"] or func.get("attrs") else 0.4):
             ents = ["pyscript.g0", "pyscript.g1"]
             if trig == "state":
-                func["active"] = X.gen_expr(rng, ents + [f"pyscript.t{fi}"], [], depth=1, allow_old=True, allow_raise=True)
+                func["active"] = X.gen_expr(rng, ents + [f"pyscript.t{fi}"], ["level"] if func.get("attrs") else [], depth=1,
+                                            allow_old=True, allow_raise=True)
+                if func.get("attrs") and rng.random() < 0.7:
+                    # the attribute of the triggering value / of its .old
+                    atom = ["cmp", [rng.choice(["attr", "attr", "oldattr"]), f"pyscript.t{fi}", "level"], rng.choice(["==", "!="]),
+                            rng.choice(X.ATTR_VALUES)]
+                    func["active"] = rng.choice([atom, ["and", func["active"], atom], ["or", atom, func["active"]]])
                 if rng.random() < 0.5:
                     # the trigger variable takes the values 1..~45: compare it / its .old with a threshold in that span
                     atom = ["int", [rng.choice(["v", "old"]), f"pyscript.t{fi}"], rng.choice(["<", "<=", ">", ">="]),
@@ -412,20 +598,34 @@ def gen(rng: random.Random, tier: str) -> dict:
                 ref = [rng.choice(["v", "v", "old"]) if trig == "state" else "v", rng.choice(ents + ([f"pyscript.t{fi}"] if trig == "state" else []))]
                 atom = ["intval", ref]
                 func["active"] = rng.choice([atom, ["and", func["active"], atom], ["or", atom, func["active"]]])
+        if rng.random() < 0.3:
+            # the expression depends on something that is no state variable named in it: a global variable of the
+            # script, a function of the script, an entity read through state.get()
+            kind = rng.choice(["glob", "glob", "call", "sget"])
+            if kind == "sget":
+                atom = ["sget", rng.choice(["pyscript.g0", "pyscript.g1"]), rng.choice(["==", "!="]), rng.choice(["0", "1"])]
+            else:
+                atom = [kind, "flag0" if kind == "glob" else "flag1"]
+            if rng.random() < 0.3:
+                atom = ["not", atom]
+            if func["active"] is None:
+                func["active"] = atom
+            else:
+                func["active"] = rng.choice([["and", atom, func["active"]], ["and", func["active"], atom], ["or", atom, func["active"]]])
         if not func["time_active"]:
             func["hold_off"] = None
         if not steer and func["active"] is not None and func["hold_off"] and rng.random() < 0.5:
             func["time_active_first"] = True  # @time_active written above @state_active
-        if not steer and trig == "event" and rng.random() < 0.3:
+        if not steer and trig == "event" and (rng.random() < 0.3 or (focus and fi == 0)):
             func["event_types"] = 2  # two @event_trigger decorators on the one function
         if trig == "time" or func["also_time"]:
             # the instants are given as once(h:m:s), or (whole minutes) as crontab lines; across a wall-clock change
             # always the latter: cron() is the time trigger that is documented to follow the local wall clock
             if dst or rng.random() < 0.15:
                 func["tt_form"] = "cron"
-                func["instants"] = _gen_instants_minutes(rng, windows, base, zone, dst)
+                func["instants"] = _gen_instants_minutes(rng, windows, base, zone, dst, sun)
             else:
-                func["instants"] = _gen_instants(rng, windows, base)
+                func["instants"] = _gen_instants(rng, windows, base, sun)
             if not steer and func["instants"] and rng.random() < 0.4:
                 func["shutdown"] = True  # @time_trigger(..., "shutdown"): one more occurrence when the script is reloaded
             if not func["instants"]:
@@ -434,18 +634,29 @@ def gen(rng: random.Random, tier: str) -> dict:
                 if trig == "time":
                     func["trig"] = "event"
         funcs.append(func)
-    spec = {"funcs": funcs, "no_trigger_func": rng.random() < 0.25, "base": base.isoformat(), "dst": dst, "steer": steer}
+    spec = {"funcs": funcs, "no_trigger_func": rng.random() < 0.25, "base": base.isoformat(), "dst": dst, "steer": steer, "focus": focus}
+    if any(_has_sun(f["windows"]) for f in funcs) and rng.random() < (0.9 if focus else 0.75):
+        # looking up sunrise / sunset is an executor job: it takes a while, the guard evaluation is suspended meanwhile
+        cfg["exec_latency_ms"] = [0.0, rng.choice([0.5, 5.0, 20.0])]
+    flags = sorted({name for f in funcs for kind, name in a_deps(f["active"]) if kind in ("glob", "call")})
+    flag_val = {name: False for name in flags}
     # occurrences on a 0.5 s grid offset by .5 from the whole-second edges
     ops = []
     k = 0
     sid = 0
     direct = rng.random() < 0.3
 
-    def occurrence(func, t_off, sid):
-        if func["trig"] == "event":
-            second = func.get("event_types", 1) > 1 and rng.random() < 0.5
+    def occurrence(func, t_off, sid, nth=None):
+        """An occurrence of the function's event / state trigger (``nth``: position in a burst - the triggers of a
+        function with two of them take turns)."""
+        turn = None if nth is None else nth % 2 == 1
+        if func["trig"] == "event" or (func.get("also_event") and (rng.random() < 0.4 if turn is None else turn)):
+            second = func.get("event_types", 1) > 1 and (rng.random() < 0.5 if turn is None else turn)
             return {"t": t_off, "kind": "fire", "type": f"ev_{func['name']}" + ("_b" if second else ""), "data": {"id": sid}}
-        return {"t": t_off, "kind": "set", "e": f"pyscript.t{func['name'][1:]}", "s": str(sid)}
+        op = {"t": t_off, "kind": "set", "e": f"pyscript.t{func['name'][1:]}", "s": str(sid)}
+        if func.get("attrs"):
+            op["a"] = {"level": rng.choice(X.ATTR_VALUES)}
+        return op
 
     while True:
         k += rng.choice([1, 1, 2, 3, 5, 9, 17, 31])
@@ -458,6 +669,11 @@ def gen(rng: random.Random, tier: str) -> dict:
             ops.append({"t": t_off, "kind": "set", "e": rng.choice(["pyscript.g0", "pyscript.g1"]), "s": rng.choice(["0", "1", "x"])})
         elif roll < 0.2 and direct:
             ops.append({"t": t_off, "kind": "direct", "fn": rng.randrange(len(funcs)), "id": sid})
+        elif roll < 0.35 and flags:
+            # the script's global variable changes (through a service of the script); no entity does
+            name = rng.choice(flags)
+            flag_val[name] = not flag_val[name]
+            ops.append({"t": t_off, "kind": "flag", "name": name, "v": flag_val[name]})
         else:
             cands = [f for f in funcs if f["trig"] in ("event", "state")]
             if not cands:
@@ -479,6 +695,21 @@ def gen(rng: random.Random, tier: str) -> dict:
             if t_off not in used and 1.0 < t_off < 470.0:
                 ops.append(occurrence(func, t_off, 100 + sid))
         ops.sort(key=lambda op: op["t"])
+    if cands and (focus or rng.random() < 0.4):
+        # bursts: 2-4 occurrences of one function in the same instant (no loop pass in between) - changes of its
+        # trigger variable (value and attribute), events of its event trigger(s), or both
+        used = {op["t"] for op in ops}
+        for nb in range(rng.choice([2, 3, 4]) if focus else rng.choice([1, 1, 2, 3])):
+            # (functions whose trigger variable carries an attribute are drawn three times as often)
+            func = funcs[0] if focus and nb < 2 and funcs[0] in cands else rng.choice(cands + 2 * [f for f in cands if f.get("attrs")])
+            t_off = rng.randint(2, 468) + 0.5
+            if any(abs(t_off - t) < 1.0 for t in used) or (dst and abs(t_off - dst["at"]) < 1.0):
+                continue
+            used.add(t_off)
+            for nth in range(rng.choice([2, 2, 3, 4])):
+                sid += 1
+                ops.append(occurrence(func, t_off, 200 + sid, nth))
+        ops.sort(key=lambda op: op["t"])
     return {"cfg": cfg, "spec": spec, "ops": ops}
 
 
@@ -490,8 +721,20 @@ def _has_time(func: dict) -> bool:
 
 def render(scn: dict) -> dict:
     lines = []
+    deps = [d for func in scn["spec"]["funcs"] for d in a_deps(func["active"])]
+    if any(kind in ("glob", "call") for kind, _name in deps):
+        # what @state_active expressions depend on besides state variables: global variables of the script (changed by
+        # a service of the script) and a function of the script
+        for name in FLAGS:
+            lines.append(f"{name} = False")
+        lines += ["", "def flag1_is_set():", "    return flag1", "",
+                  "@service", "def set_flag(name=None, v=None):", "    global flag0, flag1",
+                  "    if name == 'flag0':", "        flag0 = v", "    else:", "        flag1 = v",
+                  "    sim.mark('set_flag', name, v)", ""]
     for func in scn["spec"]["funcs"]:
         fi = func["name"][1:]
+        if func["trig"] == "state" and func.get("also_event"):
+            lines.append(f"@event_trigger('ev_{func['name']}')")
         if func["trig"] == "event":
             lines.append(f"@event_trigger('ev_{func['name']}')")
             if func.get("event_types", 1) > 1:
@@ -541,9 +784,12 @@ def normalize(scn: dict) -> dict | None:
     n = len(scn["spec"]["funcs"])
     names = {f["name"] for f in scn["spec"]["funcs"]}
     keep = []
+    flags = {dname for f in scn["spec"]["funcs"] for kind, dname in a_deps(f["active"]) if kind in ("glob", "call")}
     for op in scn["ops"]:
         if op["kind"] == "direct" and op["fn"] >= n:
             continue
+        if op["kind"] == "flag" and not flags:
+            continue  # the script has no set_flag service
         if op["kind"] == "fire" and op["type"][3:].split("_")[0] not in names:
             continue
         keep.append(op)
@@ -581,7 +827,7 @@ def simplify(scn: dict):
             cand = copy.deepcopy(scn)
             cand["spec"]["funcs"][fi]["tt_form"] = "once"
             yield cand
-        for key in ("shutdown", "time_active_first"):
+        for key in ("shutdown", "time_active_first", "also_event"):
             if func.get(key):
                 cand = copy.deepcopy(scn)
                 cand["spec"]["funcs"][fi][key] = False
@@ -624,7 +870,12 @@ def simplify(scn: dict):
         cand = copy.deepcopy(scn)
         cand["spec"]["no_trigger_func"] = False
         yield cand
-    for key, val in (("timer_late_ms", 0.0), ("cost_us", 50), ("set_order_salt", 0)):
+    if any(op.get("a") for op in scn["ops"]):
+        cand = copy.deepcopy(scn)
+        for op in cand["ops"]:
+            op.pop("a", None)
+        yield cand
+    for key, val in (("timer_late_ms", 0.0), ("cost_us", 50), ("set_order_salt", 0), ("exec_latency_ms", [0.0, 0.0])):
         if scn["cfg"].get(key) != val:
             cand = copy.deepcopy(scn)
             cand["cfg"][key] = val
@@ -666,11 +917,14 @@ def run(scn: dict, horizon: float = 480.0) -> dict:
             if op["kind"] == "set":
                 before = w.hass.states.get(op["e"])
                 rec["old"] = before.state if before else None
-                w.set_state(op["e"], op["s"], {})
+                rec["old_a"] = dict(before.attributes) if before else {}
+                w.set_state(op["e"], op["s"], op.get("a") or {})
             elif op["kind"] == "fire":
                 ctx = Context()
                 rec["ctx"] = ctx.id
                 w.fire(op["type"], op["data"], context=ctx)
+            elif op["kind"] == "flag":
+                await w.call_service("pyscript", "set_flag", {"name": op["name"], "v": op["v"]}, blocking=True)
             elif op["kind"] == "direct":
                 w.probe("direct_call_of_guarded")
                 await w.call_service("pyscript", "call_direct", {"fn": op["fn"], "id": op["id"]}, blocking=True)
@@ -693,15 +947,18 @@ def run(scn: dict, horizon: float = 480.0) -> dict:
     return base_result(w, violations, nontrivial, extra)
 
 
-def window_verdict(windows: list, now: dt.datetime, startup: dt.datetime):
+def window_verdict(windows: list, now: dt.datetime, startup: dt.datetime, sun=None):
     """(active?, don't-care?) for "any positive (or none given) and no negative"."""
+    if sun is None:
+        def sun(*_a):
+            return None
     pos, negs = [], []
     unknown = False
     for win in windows:
         if win["type"] == "cron":
             val = C.cron_match(win["expr"], now.replace(second=0, microsecond=0))
         else:
-            val = C.range_contains(win, now, startup, lambda *_a: None)
+            val = C.range_contains(win, now, startup, sun)
         if val is None:
             unknown = True
             continue
@@ -722,16 +979,24 @@ def oracle(w: World, scn: dict, info: dict, base: dt.datetime):
     zone = C.Zone(w.cfg["tz"])
     dst = spec.get("dst")
     vt_change = info["vt_base"] + dst["at"] if dst else None
+    sun = sun_local(w.cfg["tz"]) if any(_has_sun(f["windows"]) for f in spec["funcs"]) else None
+    suspending = sun is not None and w.cfg["exec_latency_ms"][1] > 0.0
+    n_flag_ops = sum(1 for r in info["occ"] if r["op"]["kind"] == "flag")
+    if n_flag_ops != sum(1 for m in w.marks if m["args"][0] == "set_flag"):
+        raise RuntimeError("harness: a set_flag service call of the driver did not run")
 
     def vt_of_local(t):
         """Virtual (= real elapsed) time at which the wall clock reads the naive local time ``t``."""
         return w.clock.vt_of_utc(zone.to_utc(t))
 
     def viol(cls, sig, detail, t=0.0):
+        if cls in ("C07.state_active_builtin_function_not_callable", "C07.state_active_attribute_not_of_triggering_value",
+                   "C07.hold_off_same_instant_occurrences"):
+            sig = {k: v for k, v in sig.items() if k != "pattern"}  # one finding per subsystem
         violations.append({"class": cls, "sig": {"subsystem": sub, **sig}, "detail": detail, "t": t})
 
     # guard entity history
-    gvals = {"pyscript.g0": "0", "pyscript.g1": "1"}
+    gvals = {"pyscript.g0": "0", "pyscript.g1": "1", "flag0": False, "flag1": False}
     timeline = []
     for rec in info["occ"]:
         timeline.append(rec)
@@ -761,6 +1026,9 @@ def oracle(w: World, scn: dict, info: dict, base: dt.datetime):
             if op["kind"] == "set" and op["e"] in g:
                 g[op["e"]] = op["s"]
                 g_hist.append((rec["vt"], dict(g)))
+            elif op["kind"] == "flag":
+                g[op["name"]] = op["v"]
+                g_hist.append((rec["vt"], dict(g)))
 
         def guards_at(vt, tol):
             gv = dict(gvals)
@@ -771,6 +1039,19 @@ def oracle(w: World, scn: dict, info: dict, base: dt.datetime):
                     return None  # guard entity changed at the same moment: don't-care
             return gv
 
+        t_sets = [rec for rec in timeline if rec["op"]["kind"] == "set" and rec["op"]["e"] == f"pyscript.t{fi}"]
+
+        def t_at(vt, tol=0.3):
+            """(value, attributes, ambiguous?) of the function's trigger variable at the virtual time ``vt``."""
+            cur, cur_a, unsure = "0", {}, False
+            for rec in t_sets:
+                if rec["vt"] <= vt:
+                    cur, cur_a = rec["op"]["s"], rec["op"].get("a") or {}
+                if abs(rec["vt"] - vt) < tol:
+                    unsure = True
+            return cur, cur_a, unsure
+
+        with_event = func["trig"] == "event" or (func["trig"] == "state" and bool(func.get("also_event")))
         # ---- occurrences
         occs = []
         absorbed = {}
@@ -781,14 +1062,26 @@ def oracle(w: World, scn: dict, info: dict, base: dt.datetime):
             op = rec["op"]
             if op["kind"] == "set" and op["e"] in g:
                 g[op["e"]] = op["s"]
-            elif func["trig"] == "event" and op["kind"] == "fire" and op["type"] in (
+            elif op["kind"] == "flag":
+                g[op["name"]] = op["v"]
+            elif with_event and op["kind"] == "fire" and op["type"] in (
                     [f"ev_{name}", f"ev_{name}_b"] if func.get("event_types", 1) > 1 else [f"ev_{name}"]):
-                occs.append({"key": ("ctx", rec["ctx"]), "now": rec["wall"], "vt": rec["vt"], "rt": rec["vt"], "g": dict(g), "exact": False,
-                             "via": op["type"], "label": f"event {op['type']} id {op['data']['id']} at {rec['wall']}"})
+                occ = {"key": ("ctx", rec["ctx"]), "now": rec["wall"], "vt": rec["vt"], "rt": rec["vt"], "g": dict(g), "exact": False,
+                       "via": op["type"], "label": f"event {op['type']} id {op['data']['id']} at {rec['wall']}"}
+                if func["trig"] == "state":
+                    # no triggering state values: the variable reads as its current value, its .old as None; a change
+                    # of the variable in the same instant makes "current" ambiguous
+                    occ["new"], occ["new_a"], unsure = t_at(rec["vt"])
+                    occ["old"] = None
+                    if unsure and func["active"] is not None and any(r[1] == f"pyscript.t{fi}" for r in a_refs(func["active"])):
+                        occ["g"] = None
+                occs.append(occ)
             elif func["trig"] == "state" and op["kind"] == "set" and op["e"] == f"pyscript.t{fi}" and rec["old"] != op["s"]:
                 if not hold:
                     occs.append({"key": ("val", op["s"]), "now": rec["wall"], "vt": rec["vt"], "rt": rec["vt"], "g": dict(g), "exact": False,
-                                 "new": op["s"], "old": rec["old"], "label": f"{op['e']} {rec['old']}->{op['s']} at {rec['wall']}"})
+                                 "new": op["s"], "old": rec["old"], "new_a": op.get("a") or {}, "old_a": rec.get("old_a") or {},
+                                 "via": "state",
+                                 "label": f"{op['e']} {rec['old']}{rec.get('old_a') or ''}->{op['s']}{op.get('a') or ''} at {rec['wall']}"})
                     continue
                 # state_hold on the "any change" form (documented): the change is delivered ``hold`` seconds later
                 # with its own values; changes during that period do not restart it and are not delivered;
@@ -803,7 +1096,8 @@ def oracle(w: World, scn: dict, info: dict, base: dt.datetime):
                 due = w.clock.local_at(pending_until)  # what the wall clock reads ``hold`` seconds later
                 occs.append({"key": ("val", op["s"]), "now": due, "vt": pending_until, "rt": pending_until,
                              "g": guards_at(pending_until, 0.15), "exact": False,
-                             "new": op["s"], "old": rec["old"], "held": True,
+                             "new": op["s"], "old": rec["old"], "new_a": op.get("a") or {}, "old_a": rec.get("old_a") or {},
+                             "held": True, "via": "state",
                              "held_across": dst is not None and rec["vt"] < vt_change < pending_until,
                              "label": f"{op['e']} {rec['old']}->{op['s']} at {rec['wall']} (state_hold over at {due})"})
         if unsure_from is not None:
@@ -825,14 +1119,10 @@ def oracle(w: World, scn: dict, info: dict, base: dt.datetime):
                        "label": f"time trigger at {t}"}
                 if func["trig"] == "state":
                     # no triggering state values: the variable reads as its current value, its .old as None
-                    cur = "0"
-                    for rec in timeline:
-                        if rec["op"]["kind"] == "set" and rec["op"]["e"] == f"pyscript.t{fi}":
-                            if rec["vt"] <= rt:
-                                cur = rec["op"]["s"]
-                            if abs(rec["vt"] - rt) < 0.3:
-                                occ["g"] = None
-                    occ["new"], occ["old"] = cur, None
+                    occ["new"], occ["new_a"], unsure = t_at(rt)
+                    occ["old"] = None
+                    if unsure:
+                        occ["g"] = None
                 occs.append(occ)
         if has_time and func.get("shutdown") and info.get("shutdown_vt") is not None:
             w.probe("shutdown_occurrence")
@@ -840,18 +1130,27 @@ def oracle(w: World, scn: dict, info: dict, base: dt.datetime):
                    "g": guards_at(info["shutdown_vt"], 0.3), "exact": False, "shutdown": True,
                    "label": f"shutdown time trigger (script reloaded) at {info['shutdown_wall']}"}
             if func["trig"] == "state":
-                cur = "0"
-                for rec in timeline:
-                    if rec["op"]["kind"] == "set" and rec["op"]["e"] == f"pyscript.t{fi}":
-                        cur = rec["op"]["s"]
-                occ["new"], occ["old"] = cur, None
+                occ["new"], occ["new_a"], _unsure = t_at(info["shutdown_vt"])
+                occ["old"] = None
             occs.append(occ)
         occs.sort(key=lambda o: o["rt"])  # real order (the wall clock may be stepped back during the run)
+        # same-instant occurrences (a burst: no loop pass between the stimuli) form a group
+        first = 0
+        for idx, occ in enumerate(occs):
+            if abs(occ["rt"] - occs[first]["rt"]) >= 0.05:
+                first = idx
+            occ["grp"] = first
+        for idx, occ in enumerate(occs):
+            members = [o for o in occs if o["grp"] == occ["grp"]]
+            occ["grp_n"] = len(members)
+            occ["grp_first"] = occ["grp"] == idx
+            occ["grp_last"] = members[-1] is occ
+            occ["grp_vias"] = sorted({str(o.get("via")) for o in members})
         # ---- observed runs keyed like occurrences
         got = {}
         for m in trig_marks:
             raw = m["raw_kw"]
-            kind = raw.get("trigger_type") if has_time and func["trig"] != "time" else func["trig"]
+            kind = raw.get("trigger_type") if (has_time and func["trig"] != "time") or func.get("also_event") else func["trig"]
             if kind == "event":
                 key = ("ctx", raw["context"].id if raw.get("context") is not None else None)
             elif kind == "state":
@@ -859,6 +1158,7 @@ def oracle(w: World, scn: dict, info: dict, base: dt.datetime):
             else:
                 key = ("tt", raw.get("trigger_time"))
             got.setdefault(key, []).append(m)
+        deps = a_deps(func["active"])
         last_accept = None
         last_accept_rt = None
         last_accept_via = None
@@ -866,6 +1166,9 @@ def oracle(w: World, scn: dict, info: dict, base: dt.datetime):
         across_seen = False  # a state_hold period of this function contained the change of the wall clock
         prev_now = None
         prev_exact_rt = info["def_vt"]
+        prev_dep_vals = None
+        prev_named_vals = None
+        grp = None
         known_keys = set()
         for occ in occs:
             known_keys.add(occ["key"])
@@ -884,10 +1187,12 @@ def oracle(w: World, scn: dict, info: dict, base: dt.datetime):
                 w.probe("combined_trigger")
                 if not occ["exact"] and func["time_active"] and func["windows"]:
                     # the first event/state occurrence after a window edge was passed while the time trigger was pending
-                    here, dc_a = window_verdict(func["windows"], now, startup)
-                    before, dc_b = window_verdict(func["windows"], prev_now or startup, startup)
+                    here, dc_a = window_verdict(func["windows"], now, startup, sun)
+                    before, dc_b = window_verdict(func["windows"], prev_now or startup, startup, sun)
                     if not dc_a and not dc_b and here != before:
                         w.probe("combined_first_after_window_edge")
+            if func.get("also_event"):
+                w.probe("state_and_event_trigger")
             prev_now = now
             if dst:
                 if occ["rt"] > vt_change:
@@ -897,6 +1202,10 @@ def oracle(w: World, scn: dict, info: dict, base: dt.datetime):
                         # the waiting period of the time trigger contained the change of the wall clock
                         w.probe("time_trigger_first_after_clock_change")
                     prev_exact_rt = occ["rt"]
+            if occ["grp_n"] > 1:
+                w.probe("burst_occurrence")
+                if len(occ["grp_vias"]) > 1:
+                    w.probe("burst_of_two_triggers")
             # 1. state_active
             ok = True
             if func["active"] is not None:
@@ -904,19 +1213,61 @@ def oracle(w: World, scn: dict, info: dict, base: dt.datetime):
                     dontcare = True
                 else:
                     def env(kind, ent, occ=occ):
+                        if kind == "glob":
+                            return occ["g"][ent]
+                        if kind == "sget":
+                            kind = "v"  # state.get('domain.name'): the current value
                         if ent == f"pyscript.t{fi}" and func["trig"] == "state":
                             val = occ["new"] if kind == "v" else occ["old"]
-                            return None if val is None else (val, {})
+                            attrs = occ.get("new_a") if kind == "v" else occ.get("old_a")
+                            return None if val is None else (val, attrs or {})
                         if kind == "old":
                             return None
                         val = occ["g"].get(ent)
                         return None if val is None else (val, {})
-                    if any(r[0] == "old" for r in a_refs(func["active"])):
+                    if any(r[0] in ("old", "oldattr") for r in a_refs(func["active"])):
                         w.probe("state_active_old_used")
+                    if deps:
+                        # the expression depends on something that is no state variable named in it
+                        w.probe("state_active_non_entity_dependency")
+                        dep_vals = [occ["g"][dname] for _k, dname in deps]
+                        named_vals = [env("v" if r[0] in ("v", "attr") else "old", r[1]) for r in a_refs(func["active"])]
+                        if prev_dep_vals is not None and dep_vals != prev_dep_vals and named_vals == prev_named_vals:
+                            # ... and only that has changed since the previous occurrence of the function
+                            w.probe("only_non_entity_dependency_changed")
+                        prev_dep_vals, prev_named_vals = dep_vals, named_vals
                     try:
                         value = a_eval(func["active"], env)
                     except X.EvalError:
                         value = False  # logged, treated as false
+                    if (func["trig"] == "state" and occ.get("via") == "state"
+                            and any(r[0] == "attr" and r[1] == f"pyscript.t{fi}" for r in a_refs(func["active"]))):
+                        # the attribute of the triggering value is used ...
+                        latest_a = t_at(occ["rt"] + 0.05)[1]
+                        if latest_a != (occ.get("new_a") or {}):
+                            # ... and the variable has changed again (with another attribute value) in the same instant
+                            # or during the state_hold period: the triggering value is not the latest one
+                            w.probe("trigger_attribute_changed_again_before_evaluation")
+
+                            def env_latest(kind, ent, occ=occ, latest_a=latest_a, env=env):
+                                if kind == "v" and ent == f"pyscript.t{fi}":
+                                    return (occ["new"], latest_a)
+                                return env(kind, ent)
+                            try:
+                                alt = a_eval(func["active"], env_latest)
+                            except X.EvalError:
+                                alt = False
+                            occ["attr_alt"] = bool(alt) != bool(value)  # reading the latest attribute explains a wrong verdict
+                    if any(kind == "sget" for kind, _n in deps):
+                        def env_noget(kind, ent, env=env):
+                            if kind == "sget":
+                                raise X.EvalError("state.get is not callable")
+                            return env(kind, ent)
+                        try:
+                            alt = a_eval(func["active"], env_noget)
+                        except X.EvalError:
+                            alt = False
+                        occ["sget_alt"] = bool(alt) != bool(value)  # a failing call of state.get() explains a wrong verdict
                     if not value:
                         ok = False
                         reason = "state_active"
@@ -928,7 +1279,7 @@ def oracle(w: World, scn: dict, info: dict, base: dt.datetime):
                             w.probe("state_active_falsy_non_bool")
             # 2. time windows
             if ok and func["time_active"] and func["windows"]:
-                active, dc = window_verdict(func["windows"], now, startup)
+                active, dc = window_verdict(func["windows"], now, startup, sun)
                 if dc:
                     dontcare = True
                 elif not active:
@@ -940,23 +1291,43 @@ def oracle(w: World, scn: dict, info: dict, base: dt.datetime):
                 if not occ["exact"] and not dc:
                     # execution cost: the evaluation happens a few passes later; an edge within 0.2 s is don't-care
                     for delta in (-0.25, 0.25):
-                        act2, dc2 = window_verdict(func["windows"], now + dt.timedelta(seconds=delta), startup)
+                        act2, dc2 = window_verdict(func["windows"], now + dt.timedelta(seconds=delta), startup, sun)
                         if dc2 or act2 != active:
                             dontcare = True
                 if occ["exact"] and not dc:
                     # now-relative window edges are only known to a few loop passes (the definition instant)
-                    act3, dc3 = window_verdict(func["windows"], now, startup + dt.timedelta(seconds=0.1))
+                    act3, dc3 = window_verdict(func["windows"], now, startup + dt.timedelta(seconds=0.1), sun)
                     if dc3 or act3 != active:
                         dontcare = True
                 if occ["exact"]:
                     for win in func["windows"]:
                         if win["type"] == "range":
                             for key in ("start", "end"):
-                                tm = win[key]["time"]
-                                if tm.get("k") == "hms" and (tm["h"], tm["m"], tm["s"]) == (now.hour, now.minute, now.second):
+                                if _edge_at(win[key], now.date(), sun) == now:
                                     w.probe("occurrence_on_window_end")
+            if _has_sun(func["windows"]) and func["time_active"]:
+                w.probe("sun_window")
             # 3. hold_off
-            if ok and func["hold_off"] and last_accept is not None and not dontcare:
+            grp_free = False
+            if func["hold_off"] and occ["grp_n"] > 1:
+                # several occurrences in the same instant: which of them is "the first" is not defined - exactly one of
+                # those that pass the other guards runs (if no earlier hold-off period is still running)
+                if occ["grp_first"]:
+                    grp = {"mode": "free", "elig": [], "void": False, "ran": False}
+                    if last_accept_rt is not None:
+                        gap = occ["rt"] - last_accept_rt
+                        if abs(gap - func["hold_off"]) < 0.3:
+                            grp["mode"] = "dc"
+                        elif gap < func["hold_off"]:
+                            grp["mode"] = "held"
+                if grp["mode"] == "dc":
+                    dontcare = True
+                grp_free = grp["mode"] == "free"
+                if len(occ["grp_vias"]) > 1:
+                    w.probe("burst_of_two_triggers_with_hold_off")
+                    if suspending and _has_sun(func["windows"]):
+                        w.probe("burst_of_two_triggers_hold_off_suspending_guard")
+            if ok and func["hold_off"] and last_accept is not None and not dontcare and not grp_free:
                 # "less than N seconds after": elapsed seconds, whatever the wall clock was set to in between
                 gap = occ["rt"] - last_accept_rt
                 across = dst is not None and last_accept_rt < vt_change < occ["rt"]
@@ -980,8 +1351,12 @@ def oracle(w: World, scn: dict, info: dict, base: dt.datetime):
                 w.probe("several_negated")
             if any(x["type"] == "cron" for x in func["windows"]):
                 w.probe("cron_window")
-            if any(x["type"] == "range" and x["start"]["date"]["k"] == "none" and C._time_on_day(x["start"]["time"], now.date(), None)  # pylint: disable=protected-access
-                   > C._time_on_day(x["end"]["time"], now.date(), None) for x in func["windows"]):  # pylint: disable=protected-access
+
+            def wraps(x, day=now.date()):
+                a_, b_ = _edge_at(x["start"], day, sun), _edge_at(x["end"], day, sun)
+                return x["type"] == "range" and x["start"]["date"]["k"] == "none" and a_ is not None and b_ is not None and a_ > b_
+
+            if any(x["type"] == "range" and wraps(x) for x in func["windows"]):
                 w.probe("wrapping_window")
             if dst and dst["dir"] == "forward":
                 skipped0 = zone.to_local(_change_utc(dst)) - dt.timedelta(hours=1)
@@ -992,8 +1367,11 @@ def oracle(w: World, scn: dict, info: dict, base: dt.datetime):
             if dontcare:
                 if runs:
                     last_accept, last_accept_rt, last_accept_via = now, occ["rt"], occ.get("via")
-                continue
-            if ok:
+                if grp_free:
+                    grp["void"] = True
+            elif ok and grp_free:
+                grp["elig"].append((occ, runs))
+            elif ok:
                 n_acc += 1
                 if len(runs) != 1:
                     pattern = _pattern(func)
@@ -1006,6 +1384,12 @@ def oracle(w: World, scn: dict, info: dict, base: dt.datetime):
                         cls = "C07.hold_off_started_by_rejected_occurrence"
                         why = (f"; {occ['rt'] - last_sa_reject_rt:.1f} s earlier an occurrence was rejected by "
                                f"@state_active, the last accepted one was at {last_accept}")
+                    if not runs and occ.get("sget_alt"):
+                        # the call of state.get() in the expression failed (logged), the expression counted as false
+                        cls = "C07.state_active_builtin_function_not_callable"
+                    if not runs and occ.get("attr_alt"):
+                        # the attribute the expression read was the one of a later change of the same instant
+                        cls = "C07.state_active_attribute_not_of_triggering_value"
                     if across_seen and cls == "C07.accepted_occurrence_did_not_run":
                         # this occurrence, or an earlier one whose delivery the implementation may still be waiting for
                         cls = "C07.state_hold_across_clock_change"
@@ -1024,11 +1408,46 @@ def oracle(w: World, scn: dict, info: dict, base: dt.datetime):
                     if occ.get("shutdown"):
                         w.probe("shutdown_occurrence_rejected")
                         reason = "shutdown_ran_unguarded"
+                    if reason == "state_active" and occ.get("sget_alt"):
+                        reason = "state_active_builtin_function_not_callable"
+                    if reason == "state_active" and occ.get("attr_alt"):
+                        reason = "state_active_attribute_not_of_triggering_value"
                     viol("C07.state_hold_across_clock_change" if across_seen and reason in ("window", "state_active", "hold_off")
                          else "C07." + reason, {"pattern": _pattern(func)},
                          f"{desc}: {occ['label']} must be rejected by {reason} (guards g={occ['g']}, last accepted "
                          f"{last_accept}) but the function ran", runs[0]["vt"])
                     last_accept, last_accept_rt, last_accept_via = now, occ["rt"], occ.get("via")  # the implementation accepted it: follow it for later hold_off decisions
+                    if grp_free:
+                        grp["void"] = True
+            if grp_free and occ["grp_last"]:
+                ran = [(o, r) for o, r in grp["elig"] if r]
+                if ran:
+                    last_accept, last_accept_rt, last_accept_via = ran[0][0]["now"], ran[0][0]["rt"], ran[0][0].get("via")
+                if grp["elig"] and not grp["void"]:
+                    n_acc += 1
+                    n_rej += len(grp["elig"]) - 1
+                    labels = "; ".join(o["label"] for o, _r in grp["elig"])
+                    if len(grp["elig"]) > 1:
+                        w.probe("hold_off_rejected")
+                        w.probe("hold_off_decides_within_burst")
+                    if not ran:
+                        cls = "C07.accepted_occurrence_did_not_run"
+                        if all(o.get("sget_alt") for o, _r in grp["elig"]):
+                            cls = "C07.state_active_builtin_function_not_callable"
+                        elif all(o.get("attr_alt") for o, _r in grp["elig"]):
+                            cls = "C07.state_active_attribute_not_of_triggering_value"
+                        viol(cls, {"pattern": _pattern(func)},
+                             f"{desc}: of the same-instant occurrences [{labels}] that pass every guard none ran "
+                             f"(last accepted {last_accept})", occ["vt"] or 0.0)
+                    elif any(len(r) > 1 for _o, r in ran):
+                        viol("C07.ran_twice", {"pattern": _pattern(func)},
+                             f"{desc}: of the same-instant occurrences [{labels}] one ran more than once", occ["vt"] or 0.0)
+                    elif len(ran) > 1:
+                        two = len({str(o.get("via")) for o, _r in ran}) > 1
+                        viol("C07.hold_off_same_instant_occurrences",
+                             {"pattern": _pattern(func), "triggers": "different" if two else "same"},
+                             f"{desc}: {len(ran)} of the same-instant occurrences [{labels}] ran: all of them passed the "
+                             f"hold_off test before the first was recorded as accepted", ran[1][1][0]["vt"])
         for key, ms in got.items():
             if key in absorbed:
                 viol("C07.state_hold_across_clock_change" if across_seen else "C07.state_hold_delivered_other_change", {},
